@@ -9,6 +9,7 @@ import Mahotas.Proofs.C13Maps
 import Mahotas.Proofs.C13Regions
 import Mahotas.Proofs.C13BBox
 import Mahotas.Proofs.C13Com
+import Mahotas.Proofs.C13Filter
 open Mahotas Mahotas.C13
 
 /-- **C13-T1 (fold_eq, generic).** For every value type, operation `f`, identity `start`, number of
@@ -162,6 +163,17 @@ theorem C13_binary_search_mem (arr : Array Int) (x : Int)
 theorem C13_remove_regions_spec (labels regions : List Int) :
     removeRegions labels regions = removeRegionsSpec labels regions :=
   removeRegions_eq_spec labels regions
+
+/-- **C13-T4 (filter_labeled).** For a non-negative label map that fills its shape, the model of
+`filter_labeled` — optional `remove_bordering` + `relabel`, sizes by `labeled_size`, the size tests
+(`min_size`/`max_size`, 0 = not given), `remove_regions` of the failing labels, final `relabel` — returns the
+renumbering (`relabel`, characterised by `C13_relabel_spec`) of the label map in which exactly the selected
+regions are zeroed: those touching the border (when asked) and those whose pixel count is below `min_size`
+or above `max_size`. Uses that `relabel` is invariant under injective renaming (`relabel_map_inj`). -/
+theorem C13_filter_labeled_spec (shape : List Nat) (labels : List Int) (rb : Bool) (minSize maxSize : Nat)
+    (hnn : ∀ v ∈ labels, 0 ≤ v) (hlen : labels.length = shapeSize shape) :
+    filterLabeled shape labels rb minSize maxSize = relabel (filterKept shape labels rb minSize maxSize) :=
+  filterLabeled_eq shape labels rb minSize maxSize hnn hlen
 
 /-- **C13-T2 (bbox, generic path).** Let `ps` be the positions of the non-zero pixels of an image that fills
 its shape. On every axis `j` the model of the generic `bbox` loop leaves in `extrema[2j]`, `extrema[2j+1]`
